@@ -73,6 +73,10 @@ pub enum MOp {
     HideMp,
     /// mp.set_draw_target(a fresh target on the same terminal): the next draw paints the members as they are now
     ShowMp,
+    /// the last handle of an unfinished member (finish behaviour AndClear) is dropped while its thread unwinds
+    /// from a panic (a worker that fails while it owns its bar): nothing is painted then, but the bar is
+    /// finished and cleared all the same - its rows go with the next draw
+    DropUnwinding(u16),
 }
 
 #[derive(Debug, Clone, Serialize, Deserialize)]
@@ -475,7 +479,7 @@ impl Interp {
                 sel($s)
             }};
         }
-        if self.model.bottom_ever && matches!(op, MOp::Drop(_) | MOp::MpClear | MOp::MpSuspend(_) | MOp::BarSuspend(..) | MOp::MpPrintln(_) | MOp::BarPrintln(..) | MOp::BarPrintlnUnwinding(..)) {
+        if self.model.bottom_ever && matches!(op, MOp::Drop(_) | MOp::DropUnwinding(_) | MOp::MpClear | MOp::MpSuspend(_) | MOp::BarSuspend(..) | MOp::MpPrintln(_) | MOp::BarPrintln(..) | MOp::BarPrintlnUnwinding(..)) {
             self.model.bottom_loose = true;
         }
         if self.hidden && matches!(op, MOp::MpPrintln(_) | MOp::BarPrintln(..) | MOp::BarPrintlnUnwinding(..) | MOp::MpSuspend(_) | MOp::BarSuspend(..) | MOp::MpClear | MOp::Retarget | MOp::HideMp | MOp::SetAlignment(_) | MOp::Resize(_)) {
@@ -707,6 +711,40 @@ impl Interp {
                     e.on_screen = false;
                 }
                 out.phase_frames.push((vec![], self.model.log.len()));
+            }
+            MOp::DropUnwinding(s) => {
+                let i = need_handle!(*s);
+                let tag = self.handles[i].tag;
+                let ok = self.handles[i].member && !self.hidden && self.model.entries.iter().any(|e| e.tag == tag && e.on_finish == 2 && !e.st.finished());
+                if !ok {
+                    out.skipped = true;
+                    return Ok(out);
+                }
+                let h = self.handles.remove(i);
+                let r = catch(move || {
+                    let _owned = h;
+                    panic!("scripted task failure");
+                });
+                debug_assert!(r.is_err());
+                if let Some(e) = self.model.entries.iter_mut().find(|e| e.tag == tag) {
+                    // (its rows stay on the terminal until the next repaint, like those of a removed bar: the
+                    // recorded finding F-C02b applies to what is retained before that repaint)
+                    if e.on_screen && e.drawn.as_ref().map_or(false, |l| !l.is_empty()) {
+                        self.stale_since_remove = true;
+                    }
+                    if let Some(l) = e.st.len {
+                        e.st.pos = l;
+                    }
+                    e.st.status = Status::DoneHidden;
+                    e.drawn = Some(vec![]);
+                    e.zombie = true;
+                }
+                if self.model.entries.first().map_or(false, |e| e.tag == tag) {
+                    self.model.entries.remove(0);
+                }
+                paint = false;
+                reap_now = false;
+                out.note = "dropped_while_unwinding";
             }
             MOp::HideMp => {
                 if self.model.bottom_ever {
@@ -1035,6 +1073,7 @@ pub fn mop_strategy(cols: usize, with_wait: bool) -> BoxedStrategy<MOp> {
         1 => (s(), 0u8..3, s()).prop_map(|(i, h, a)| MOp::Readd(i, h, a)),
         1 => Just(MOp::HideMp),
         2 => Just(MOp::ShowMp),
+        1 => s().prop_map(MOp::DropUnwinding),
     ];
     if with_wait {
         prop_oneof![24 => base, 2 => prop_oneof![Just(0u32), 1u32..50, 50u32..3000].prop_map(MOp::Wait), 1 => (s(), "[a-z]{1,4}").prop_map(|(i, t)| MOp::BarPrintlnUnwinding(i, t)), 1 => Just(MOp::Retarget)].boxed()
